@@ -15,7 +15,7 @@ PROPS = {
     },
     "C02": {
         "units": ["l1_error_api", "c05_accumulator"],
-        "gen": [{"corpus": "structs", "mode": "err", "unit_span": True}, {"corpus": "enums", "mode": "full", "unit_span": True}],
+        "gen": [{"corpus": "structs", "mode": "err", "unit_span": True}, {"corpus": "enums", "mode": "full", "unit_span": True}, {"corpus": "elems", "mode": "full", "unit_span": True}],
         "classes": r"postcondition|invariant|post-condition of closure",
         "level_text": "Same emitted functions proved equal to the full oracle: Err(e_multiple(mistakes)) with one error per unknown name, repeat, literal item, "
                       "failed conversion (located at name / name[i]), flatten failure and missing field, in order; Ok iff none. Span identity is abstracted (single-valued Span) so only C03 sees which span.",
@@ -25,7 +25,7 @@ PROPS = {
     },
     "C03": {
         "units": ["l1_error_api"],
-        "gen": [{"corpus": "structs", "mode": "full"}, {"corpus": "enums", "mode": "full"}],
+        "gen": [{"corpus": "structs", "mode": "full"}, {"corpus": "enums", "mode": "full"}, {"corpus": "elems", "mode": "full"}],
         "classes": r"postcondition|invariant|post-condition of closure",
         "level_text": "with_span is proved first-writer-wins on the real body (r == e_with_span(self, span(node))); the emitted parsers are proved equal to an oracle in which "
                       "every unknown/duplicate/literal/conversion error carries the span of the offending item itself and missing-field errors none, with Span opaque (so attaching another node's span fails).",
@@ -33,6 +33,31 @@ PROPS = {
         "design_ref": "DESIGN.md section 6 C03",
         "assumptions": "L3",
         "not_covered": ["Error::into_vec span hand-down (F5)", "FromMeta default methods' span attachment", "enum receivers' spans (F7)"],
+    },
+    "C08": {
+        "units": [],
+        "gen": [{"corpus": "elems", "mode": "full"}],
+        "classes": r"postcondition|invariant|post-condition of closure",
+        "level_text": "For each element-level receiver of the corpus the from_derive_input / from_field / from_attributes emitted by the working tree's derive is proved (Verus, all attribute lists) equal to a "
+                      "two-level oracle written from the statement: walk the element's attributes once; an attribute whose path is listed in attributes(..) contributes its items to ONE shared field state "
+                      "(parse failure = one mistake, empty/bare = nothing), so any split of the same items over several attributes gives the same state; an attribute selected by forward_attrs (all non-consumed when bare) "
+                      "is appended unmodified, in order, to the forwarded list; every other attribute leaves the state unchanged whatever its tokens.",
+        "level_note": "Proof per program; programs sampled (FromDeriveInput, FromField, FromAttributes; FromVariant/FromTypeParam not yet in the corpus). Partition invariance is a corollary of the oracle's shape "
+                      "(awalk folds run_from over the concatenation); attribute tokenisation (parse_attribute_to_meta_list, parse_meta_list) is uninterpreted.",
+        "design_ref": "DESIGN.md section 6 C08",
+        "assumptions": "L3",
+        "not_covered": ["FromVariant / FromTypeParam receivers", "`attrs` with a custom `with` converter", "partition-invariance as a separately stated lemma (it is implicit in the oracle)"],
+    },
+    "C16": {
+        "units": [],
+        "gen": [{"corpus": "elems", "mode": "full"}],
+        "classes": r"postcondition|invariant|post-condition of closure",
+        "level_text": "Same emitted functions: the magic fields of the result are proved equal to the corresponding parts of the input element (ident, vis, ty, generics via FromGenerics, attrs = forwarded list, "
+                      "data = Data::try_from(body)) and a failing body conversion is returned as the error, after the attribute layer was clean.",
+        "level_note": "Proof per program; programs sampled. Data::try_from / Fields::try_from / Generics conversion are seen through uninterpreted contracts here; their own units are pending (not_covered).",
+        "design_ref": "DESIGN.md section 6 C16",
+        "assumptions": "L3",
+        "not_covered": ["ast::Data::try_from / Fields::try_from / Generics::from_generics bodies (L1 unit pending)", "FromVariant (discriminant, fields) and FromTypeParam (bounds, default) magic fields", "Fields::to_tokens round trip (not expressible)"],
     },
     "C09": {
         "units": [],
@@ -49,7 +74,7 @@ PROPS = {
     },
     "C17": {
         "units": [],
-        "gen": [{"corpus": "structs", "mode": "full"}, {"corpus": "enums", "mode": "full"}],
+        "gen": [{"corpus": "structs", "mode": "full"}, {"corpus": "enums", "mode": "full"}, {"corpus": "elems", "mode": "full"}],
         "classes": r"assertion failed|post-condition of closure",
         "include_text": r"strs\(__alts@\)|e_sibling_alts",
         "level_text": "In every emitted parser of the corpus the literal candidate list passed to unknown_field_with_alts is proved equal to the names addressable at that position "
@@ -157,9 +182,53 @@ PROPS = {
         ],
         "not_covered": ["IdentString, AtomicBool", "SpannedValue/WithOriginal impls of the other From* traits", "Override<T> helper methods (as_ref, unwrap_or, ..)", "two-level compositions beyond Box<Option<_>>"],
     },
+    "C10": {
+        "units": ["c10_field_options", "c10_variant_core_options", "c10_receivers", "c10_shape_words", "c06_middleware", "c06_parse_attr", "l2_options_api"],
+        "classes": r"postcondition|invariant|assertion failed|post-condition of closure",
+        "level_text": "Every derive-time option parser of core/src/options (InputField/InputVariant/Core/FromMetaOptions/OuterFrom::parse_nested, from_field/from_variant, Core::start, "
+                      "all validate_body, FromMetaOptions::new, FromAttributesOptions::new, InputVariant::is_unsupported_tuple, DataShape::set_word) is proved on its real body against contracts written from the rule list: "
+                      "accepted => invariant wf() (flatten excludes rename/with/skip/multiple, word only on unit variants, default never Inherit) and exactly the addressed option changed; Err for unknown options, repeated options, "
+                      "map+and_then and each flatten conflict in BOTH textual orders; the flatten arm and every validate_body report ALL offenders: errors grow by exactly the number of violations "
+                      "(>1 flatten, >1 word, word+from_word, from_word on unit/newtype, attrs without forward_attrs, tuple struct / tuple variant whose field count is not one), each at the offending token; "
+                      "FromMetaOptions::new is proved to emit only for representable bodies; exactly the documented shape words are accepted; generic parse_attributes/parse_attr/parse_body carry the invariants for every implementer.",
+        "level_note": "Deductive proof for all inputs of the option layer, modulo opaque syn and uninterpreted option-value conversions (converse only modulo 'every option value converts'). wf() is a parse-time invariant "
+                      "(after with_inherited only wf_codegen()). All obligations discharge on the current tree: former findings F1/F4/F9 are fixed by /repo commits ae776c6 / 5ac3a9a / 5a67c48 and their obligations are in the baseline. "
+                      "Residual false-alarm risk: restructuring a verified loop of validate_body / parse_attr.",
+        "design_ref": "DESIGN.md section 6 C10",
+        "assumptions": [
+            "syn/proc_macro2 nodes opaque; Meta/Attribute/Field/Variant/Fields/Data/DeriveInput mirrored with the fields read; Punctuated mirrored as Vec; spans, path text, ident text are uninterpreted functions of the node; Clone yields an equal value",
+            "path.is_ident(s)/get_ident observe an uninterpreted path_ident(p); Ident == Ident compares ident text (proc_macro2)",
+            "FromMeta conversions of option values (String,bool,Flag,Callable,Path,RenameRule,Vec<WherePredicate>,SpannedValue<T>,PathList,ForwardAttrsFilter) are external functions with uninterpreted results that do not panic; Option<T> and DefaultExpression are proved on their real bodies",
+            "derived Clone/Copy/PartialEq/Default on Flag/SpannedValue/Style/PathList replaced by structural impls; ident_case::RenameRule mirrored, renaming uninterpreted",
+            "R5 match on string literals -> str_eq/opt_str_is chain; str::strip_prefix(p).unwrap_or(s) strips once, str::trim_start_matches strips repeatedly (std documentation; one optional anchor per spelling); set_word's prefix is struct_/enum_ and the word starts with it (call sites)",
+            "R2/R6 iterator chains and for loops -> defining loops; R10 tail expressions let-bound for proof hints; R11 format! texts uninterpreted; R15 trait methods verified in place, parse_attributes as default method of a blanket subtrait; Default::default() -> concrete value",
+            "ForwardedField::from_field, Path::from_expr, Error::unknown_field, NestedMeta::parse_meta_list, From<syn::Error>: external with uninterpreted results; Error/Accumulator callee contracts proved in l1_error_api / c05_accumulator",
+        ],
+        "not_covered": ["InputField::as_codegen_field / InputVariant::as_codegen_variant / From<&Core> for TraitImpl (Cow, parse_quote_spanned)", "FromMetaOptions::from_word (first word variant)",
+                        "FdiOptions/FromFieldOptions/FromVariantOptions/FromTypeParamOptions::new and their supports/forward options", "DeriveInputShapeSet::from_list and DataShape::from_list (empty-prefix entry point of set_word)",
+                        "ForwardedField::parse_nested", "default bodies of ParseData::parse_field/validate_body (parse_variant's default is proved at OuterFrom)",
+                        "'word = false' is counted as a word annotation by the contract, as by the code (over-rejects e.g. two `word = false` variants)"],
+    },
+    "C06": {
+        "units": ["c06_parse_attr", "c06_middleware", "c10_field_options", "c10_variant_core_options", "c10_receivers", "l2_options_api"],
+        "classes": r"precondition not satisfied|assertion failed|postcondition|invariant|unreachable|panic",
+        "level_text": "Every panic!/unreachable!/unwrap in the option layer is kept in the extracted text and proved unreachable: parse_field/parse_variant/parse_body from the body-shape agreement that Core::start establishes and option parsing "
+                      "preserves (also on rejected options), Core::as_codegen_default from 'default is never Inherit' (through the real DefaultExpression::from_meta), get_ident().unwrap() from is_ident. parse_attr is total for every attribute form: "
+                      "a bare word / name-value attribute is diagnosed at its own tokens with the right format name, literal items are never skipped (errors >= number of literals), a token stream that is not an item list is returned as the converted "
+                      "syntax error, and no `?` executes while an accumulator created in the function is live (R13 ghost flag). Every Err of parse_attributes/parse_body/from_field is a bundle of >= 1 diagnostics; "
+                      "FromMetaOptions::new accepts only bodies codegen can represent, so the two codegen tuple panics are unreachable from it.",
+        "level_note": "Covers the option-parsing half of the derives (all six share parse_attributes/parse_attr/parse_body and Core). All obligations discharge on the current tree; former findings F1 (ae776c6) and F4 (5ac3a9a) are fixed and "
+                      "their obligations are in the baseline. Not covered: codegen to_tokens skeleton, 'exactly one impl block', write_errors. syn parsers and option-value converters are assumed not to panic.",
+        "design_ref": "DESIGN.md section 6 C06",
+        "assumptions": ["as C10", "R13: ghost flag set at Error::accumulator(), asserted false at every expanded `?` (drop elaboration of a never-moved local)",
+                        "R18: `E?` on a syn::Result expanded to match + Error::from(e); NestedMeta::parse_meta_list and From<syn::Error> uninterpreted (may fail, may yield literal items)",
+                        "R12: attr.meta.path() == &parse_quote!(darling) -> path.is_ident(\"darling\")"],
+        "not_covered": ["codegen stage (FromMetaImpl/TraitImpl/Variant to_tokens): its tuple panics are excluded only through FromMetaOptions::new's postcondition, the skeleton itself is not under contract",
+                        "FdiOptions/FromFieldOptions/FromVariantOptions/FromTypeParamOptions::new", "DeriveInputShapeSet::from_list segments.first().unwrap()", "derive::* entry points and Error::write_errors"],
+    },
     "C07": {
         "units": [],
-        "gen": [{"corpus": "structs", "mode": "full"}, {"corpus": "enums", "mode": "full"}],
+        "gen": [{"corpus": "structs", "mode": "full"}, {"corpus": "enums", "mode": "full"}, {"corpus": "elems", "mode": "full"}],
         "classes": r"precondition not satisfied|overflow|underflow|division by zero|index out of|unreachable|panic",
         "level_text": "Every expect()/unwrap/index/arithmetic site and every accumulator-armed precondition in the emitted parsers is a proved Verus precondition for all inputs "
                       "(e.g. Option::expect requires Some; finish requires armed).",
